@@ -444,7 +444,10 @@ class CustomMode:
 
         # Read the file without forcing its data type
         all_data: "pd.DataFrame" = load_table(custom_file, dtype=None)
-        filtered_data: "pd.DataFrame" = all_data.loc[:, custom_columns]
+        if custom_columns is None:
+            filtered_data: "pd.DataFrame" = all_data
+        else:
+            filtered_data = all_data.loc[:, custom_columns]
 
         # Sanity check
         num_columns = len(filtered_data.columns)
